@@ -6,8 +6,13 @@ Per method of EvalexprInt / EvalexprFloat / EvalexprNumericTypes:
   kani  : Rust assertion body proving the same formula for the real impl on i64 / f64
           (the callee side), over all operands, with an i128 reference.
 In the kani text `a`, `b` are the i64 operands, `r` the result of the real method.
-tdiv/trem (truncating division / remainder with the dividend's sign) are defined once in
-contracts/00_vocab.vc (Verus) and mirrored with div_euclid in kani/harness_prelude.rs.
+tdiv/trem (truncating division / remainder with the dividend's sign) are defined in contracts/00_vocab.vc
+(Verus, over Euclidean division).  Kani side: the quotient is characterised on magnitudes by multiplication
+(|a| = |q|*|b| + rem, rem < |b|, sign rule; 150 s, complete).  For the remainder only the Ok/Err partition and
+the error payload are proved: every SAT/SMT back end installed here (cadical, kissat, z3 4.8, cvc5 1.0) failed
+to prove any fact about the *value* of i64 `%` within 15 min, so "the Ok value of checked_rem is the truncated
+remainder" rests on std (listed as an assumption; harness int_checked_rem_value is kept for the thorough tier
+under a budget and reported as undecided, never as proved, when it does not finish).
 """
 
 INT = {
@@ -19,9 +24,9 @@ INT = {
                 && e == crate::EvalexprError::AdditionError { augend: crate::Value::Int(*self), addend: crate::Value::Int(*rhs) },
         }''',
         kani='''let w = a as i128 + b as i128;
-        match r { Ok(v) => assert!(v as i128 == w),
+        match &r { Ok(v) => assert!(*v as i128 == w),
                   Err(e) => { assert!(w < i64::MIN as i128 || w > i64::MAX as i128);
-                              assert!(matches!(e, EvalexprError::AdditionError { augend: Value::Int(x), addend: Value::Int(y) } if x == a && y == b)); } }'''),
+                              assert!(matches!(e, EvalexprError::AdditionError { augend: Value::Int(x), addend: Value::Int(y) } if *x == a && *y == b)); } }'''),
     'checked_sub': dict(
         doc='exact a-b if it fits, else SubtractionError{minuend:a, subtrahend:b}',
         verus='''ensures match r {
@@ -30,9 +35,9 @@ INT = {
                 && e == crate::EvalexprError::SubtractionError { minuend: crate::Value::Int(*self), subtrahend: crate::Value::Int(*rhs) },
         }''',
         kani='''let w = a as i128 - b as i128;
-        match r { Ok(v) => assert!(v as i128 == w),
+        match &r { Ok(v) => assert!(*v as i128 == w),
                   Err(e) => { assert!(w < i64::MIN as i128 || w > i64::MAX as i128);
-                              assert!(matches!(e, EvalexprError::SubtractionError { minuend: Value::Int(x), subtrahend: Value::Int(y) } if x == a && y == b)); } }'''),
+                              assert!(matches!(e, EvalexprError::SubtractionError { minuend: Value::Int(x), subtrahend: Value::Int(y) } if *x == a && *y == b)); } }'''),
     'checked_mul': dict(
         doc='exact a*b if it fits, else MultiplicationError{multiplicand:a, multiplier:b}',
         verus='''ensures match r {
@@ -41,9 +46,9 @@ INT = {
                 && e == crate::EvalexprError::MultiplicationError { multiplicand: crate::Value::Int(*self), multiplier: crate::Value::Int(*rhs) },
         }''',
         kani='''let w = a as i128 * b as i128;
-        match r { Ok(v) => assert!(v as i128 == w),
+        match &r { Ok(v) => assert!(*v as i128 == w),
                   Err(e) => { assert!(w < i64::MIN as i128 || w > i64::MAX as i128);
-                              assert!(matches!(e, EvalexprError::MultiplicationError { multiplicand: Value::Int(x), multiplier: Value::Int(y) } if x == a && y == b)); } }'''),
+                              assert!(matches!(e, EvalexprError::MultiplicationError { multiplicand: Value::Int(x), multiplier: Value::Int(y) } if *x == a && *y == b)); } }'''),
     'checked_neg': dict(
         doc='exact -a if it fits, else NegationError{argument:a}',
         verus='''ensures match r {
@@ -52,9 +57,9 @@ INT = {
                 && e == crate::EvalexprError::NegationError { argument: crate::Value::Int(*self) },
         }''',
         kani='''let w = -(a as i128);
-        match r { Ok(v) => assert!(v as i128 == w),
+        match &r { Ok(v) => assert!(*v as i128 == w),
                   Err(e) => { assert!(a == i64::MIN);
-                              assert!(matches!(e, EvalexprError::NegationError { argument: Value::Int(x) } if x == a)); } }'''),
+                              assert!(matches!(e, EvalexprError::NegationError { argument: Value::Int(x) } if *x == a)); } }'''),
     'checked_div': dict(
         doc='truncating quotient; b == 0 or MIN / -1 give DivisionError{dividend:a, divisor:b}',
         verus='''ensures match r {
@@ -62,9 +67,14 @@ INT = {
             Err(e) => (rhs.0 == 0 || (self.0 == i64::MIN && rhs.0 == -1))
                 && e == crate::EvalexprError::DivisionError { dividend: crate::Value::Int(*self), divisor: crate::Value::Int(*rhs) },
         }''',
-        kani='''match r { Ok(v) => { assert!(b != 0 && !(a == i64::MIN && b == -1)); assert!(v as i128 == tdiv(a as i128, b as i128)); },
+        kani='''match &r { Ok(v) => { assert!(b != 0 && !(a == i64::MIN && b == -1));
+                          // truncating quotient, characterised on magnitudes: |a| = |q|*|b| + rem with rem < |b|; sign rule
+                          let ua = a.unsigned_abs(); let ub = b.unsigned_abs(); let uq = v.unsigned_abs();
+                          let p = uq.checked_mul(ub); assert!(p.is_some()); let p = p.unwrap();
+                          assert!(p <= ua && ua - p < ub);
+                          assert!(*v == 0 || ((*v < 0) == ((a < 0) != (b < 0)))); },
                   Err(e) => { assert!(b == 0 || (a == i64::MIN && b == -1));
-                              assert!(matches!(e, EvalexprError::DivisionError { dividend: Value::Int(x), divisor: Value::Int(y) } if x == a && y == b)); } }'''),
+                              assert!(matches!(e, EvalexprError::DivisionError { dividend: Value::Int(x), divisor: Value::Int(y) } if *x == a && *y == b)); } }'''),
     'checked_rem': dict(
         doc='remainder with the sign of the dividend; b == 0 or MIN % -1 give ModulationError{dividend:a, divisor:b}',
         verus='''ensures match r {
@@ -72,9 +82,10 @@ INT = {
             Err(e) => (rhs.0 == 0 || (self.0 == i64::MIN && rhs.0 == -1))
                 && e == crate::EvalexprError::ModulationError { dividend: crate::Value::Int(*self), divisor: crate::Value::Int(*rhs) },
         }''',
-        kani='''match r { Ok(v) => { assert!(b != 0 && !(a == i64::MIN && b == -1)); assert!(v as i128 == trem(a as i128, b as i128)); },
+        kani='''match &r { Ok(v) => { assert!(b != 0 && !(a == i64::MIN && b == -1)); },
                   Err(e) => { assert!(b == 0 || (a == i64::MIN && b == -1));
-                              assert!(matches!(e, EvalexprError::ModulationError { dividend: Value::Int(x), divisor: Value::Int(y) } if x == a && y == b)); } }'''),
+                              assert!(matches!(e, EvalexprError::ModulationError { dividend: Value::Int(x), divisor: Value::Int(y) } if *x == a && *y == b)); } }''',
+        kani_value='''match &r { Ok(v) => { assert!(v.unsigned_abs() < b.unsigned_abs()); assert!(*v == 0 || ((*v < 0) == (a < 0))); }, Err(_) => {} }'''),
 }
 
 FLOAT = {
